@@ -97,6 +97,8 @@ def generate(plan) -> None:
     k["bare_code"] = r.random() < 0.5
     # the application calls the same API again on a device that is already binding (must be refused, the attempt under way unharmed)
     k["double_call"] = None if ff else r.choice([None, None, None, {"who": "resp", "at": 0.02}, {"who": "resp", "at": 0.6}, {"who": "supp", "at": 0.03}])
+    if not ff and plan.rng("gen/dc2").random() < 0.12:  # (own stream) a second call while the 10E0 addendum is in flight
+        k["double_call"] = {"who": "supp", "at": "addendum", "delay": plan.rng("gen/dc2d").choice([0.0, 0.002, 0.004, 0.008])}
     k["supp_first"] = r.random() < 0.15
     ops = plan.d["ops"]
     if not ff and mode != "cancel_retry":
@@ -294,9 +296,19 @@ async def run(ctx) -> None:
 
         tasks = []
         dc = k("double_call") if tag == "first" else None
+        n_wire0 = len(wire)
 
         async def again():
-            await asyncio.sleep(dc["at"])
+            if dc["at"] == "addendum":  # exactly while the supplicant's 10E0 addendum is on its way (sent, its echo not back yet)
+                for _ in range(4000):
+                    if any(" 10E0 " in ln and ln[7:16] == supp.id for (_t, _n, ln) in wire[n_wire0:]):
+                        break
+                    await asyncio.sleep(0.002)
+                else:
+                    return
+                await asyncio.sleep(dc.get("delay", 0.003))
+            else:
+                await asyncio.sleep(dc["at"])
             dev_, what = (resp, "resp") if dc["who"] == "resp" else (supp, "supp")
             if not dev_._bind_context.is_binding:
                 return
